@@ -43,16 +43,27 @@ type TxSpec struct {
 	Fee   int64
 	VSize int    // target virtual size; the factory pads to hit it exactly (AutoSize: natural size)
 	Rbf   bool   // explicit BIP125 signalling
-	Cls   string // ok | badscript | insane | negfee
-	// SigOps adds this many never-executed OP_CHECKMULTISIG to output 0 (20 legacy sigops, cost 80 each).
-	SigOps int
+	Cls   string // ok | badscript | insane | negfee | small
+	// Lock is the nLockTime class of Mempool.tla (TxLock); "" = none.
+	Lock string
+	// SigOps adds this many never-executed OP_CHECKMULTISIG to output 0 (20 legacy sigops, cost 80 each),
+	// SigOpsCS this many OP_CHECKSIG (cost 4 each).
+	SigOps   int
+	SigOpsCS int
 }
 
 type Universe struct {
-	Name          string
-	Txs           []TxSpec // Txs[i] is transaction i+1
-	NFund         int
-	WitCoins      map[Outpoint]bool // outputs that are P2WSH (spent through a witness)
+	Name      string
+	Txs       []TxSpec // Txs[i] is transaction i+1
+	NFund     int
+	WitCoins  map[Outpoint]bool // outputs that are P2WSH (spent through a witness)
+	WitSigOps map[Outpoint]int  // OP_CHECKSIGs in the witness script of a P2WSH coin (cost 1 each for the spender)
+	// Standard turns the standardness checks on (Policy.AcceptNonStd = false); every
+	// output is then P2SH.
+	Standard bool
+	// Retarget gives the chain a required difficulty above the minimum (retargeting
+	// every 20 blocks, base chain of 41 blocks); no forks in such a universe.
+	Retarget      bool
 	SlotParent    []int
 	Maturity      int
 	RejectRepl    bool
@@ -131,6 +142,24 @@ func (u *Universe) Validate() error {
 			return fmt.Errorf("universe %s: free transactions of %d bytes in total are within 8%% of the rate limit %d", u.Name, sum, u.FreeLimit)
 		}
 	}
+	for i, tx := range u.Txs {
+		if tx.Cls == "small" && (len(tx.Ins) != 1 || tx.NOut != 1) {
+			return fmt.Errorf("universe %s: the small transaction %d must have one input and one output", u.Name, i+1)
+		}
+		if !u.Standard && tx.Lock != "" && tx.Lock != "none" && tx.Lock != "h0" && tx.Lock != "tpast" {
+			return fmt.Errorf("universe %s: tx %d: lock class %s needs the standardness checks", u.Name, i+1, tx.Lock)
+		}
+	}
+	if u.Retarget {
+		for b, p := range u.SlotParent {
+			if p != b {
+				return fmt.Errorf("universe %s: a retargeting universe cannot fork", u.Name)
+			}
+		}
+	}
+	if u.Standard && len(u.WitCoins) > 0 {
+		return fmt.Errorf("universe %s: witness coins are not available with standard scripts", u.Name)
+	}
 	for op := range u.WitCoins {
 		if op.Src > 0 && op.Idx == 0 {
 			return fmt.Errorf("universe %s: output 0 of a transaction cannot be a witness coin", u.Name)
@@ -182,6 +211,7 @@ func (u *Universe) Module(modName, base string, c *Concrete, extraDefs, cfgTail 
 	seq("U_TxSize", func(i int) string { return fmt.Sprint(c.Size[i]) })
 	seq("U_TxRbf", func(i int) string { return tlaBool(u.Txs[i].Rbf) })
 	seq("U_TxCls", func(i int) string { return fmt.Sprintf("%q", u.Txs[i].Cls) })
+	seq("U_TxLock", func(i int) string { return fmt.Sprintf("%q", u.Txs[i].Lock) })
 	seq("U_TxWit", func(i int) string { return tlaBool(u.HasWitness(i + 1)) })
 	seq("U_TxWeight", func(i int) string { return fmt.Sprint(c.Weight[i]) })
 	seq("U_TxSigCost", func(i int) string { return fmt.Sprint(c.SigCost[i]) })
@@ -201,9 +231,9 @@ func (u *Universe) Module(modName, base string, c *Concrete, extraDefs, cfgTail 
 	var cf strings.Builder
 	cf.WriteString("CONSTANTS\n")
 	fmt.Fprintf(&cf, " N = %d\n TxIns <- U_TxIns\n TxNOut <- U_TxNOut\n TxFee <- U_TxFee\n TxVSize <- U_TxVSize\n TxSize <- U_TxSize\n", len(u.Txs))
-	cf.WriteString(" TxRbf <- U_TxRbf\n TxCls <- U_TxCls\n TxWit <- U_TxWit\n SlotParent <- U_SlotParent\n")
-	fmt.Fprintf(&cf, " NFund = %d\n Maturity = %d\n RejectRepl = %s\n MaxOrphans = %d\n MaxOrphanSize = %d\n MinRelayFee = %d\n FreeLimit = %d\n MaxEvict = %d\n MaxBlockTxs = %d\n MaxReorgTxs = %d\n Standalone = %s\n DisconnectEvicts = %s\n",
-		u.NFund, u.Maturity, tlaBool(u.RejectRepl), u.MaxOrphans, u.MaxOrphanSize, u.MinRelayFee, u.FreeLimit, u.MaxEvict, u.MaxBlockTxs, u.MaxReorgTxs, tlaBool(u.Standalone), tlaBool(!(u.LegacyDisconnect || os.Getenv("VERIF_LEGACY_DISCONNECT") != "")))
+	cf.WriteString(" TxRbf <- U_TxRbf\n TxCls <- U_TxCls\n TxLock <- U_TxLock\n TxWit <- U_TxWit\n SlotParent <- U_SlotParent\n")
+	fmt.Fprintf(&cf, " NFund = %d\n Maturity = %d\n RejectRepl = %s\n MaxOrphans = %d\n MaxOrphanSize = %d\n MinRelayFee = %d\n FreeLimit = %d\n MaxEvict = %d\n MaxBlockTxs = %d\n MaxReorgTxs = %d\n Standalone = %s\n DisconnectEvicts = %s\n Standard = %s\n",
+		u.NFund, u.Maturity, tlaBool(u.RejectRepl), u.MaxOrphans, u.MaxOrphanSize, u.MinRelayFee, u.FreeLimit, u.MaxEvict, u.MaxBlockTxs, u.MaxReorgTxs, tlaBool(u.Standalone), tlaBool(!(u.LegacyDisconnect || os.Getenv("VERIF_LEGACY_DISCONNECT") != "")), tlaBool(u.Standard))
 	cf.WriteString(" Script <- U_Script\n")
 	cf.WriteString(cfgTail)
 	return sb.String(), cf.String()
@@ -234,6 +264,12 @@ func defaults(u Universe) *Universe {
 	for i := range u.Txs {
 		if u.Txs[i].Cls == "" {
 			u.Txs[i].Cls = "ok"
+		}
+		if u.Txs[i].Lock == "" {
+			u.Txs[i].Lock = "none"
+		}
+		if u.Txs[i].Cls == "small" {
+			u.Txs[i].VSize = AutoSize
 		}
 		if u.Txs[i].NOut == 0 {
 			u.Txs[i].NOut = 1
@@ -297,6 +333,27 @@ func BuiltinUniverses() []*Universe {
 				{Ins: ins(out(1, 0)), Fee: 1000},
 				{Ins: ins(fund(0)), Fee: 3000},
 			}}),
+		// A block carries t1, which the pool always refuses (shorter than 65
+		// bytes), and its child t2; t3, t4 descend from t2.  When the block is
+		// disconnected t2 comes back with a missing parent.
+		defaults(Universe{Name: "reorgsmall", NFund: 1, SlotParent: []int{0, 0, 2}, MaxOrphans: 1, MaxBlockTxs: 2, MaxReorgTxs: 0, Standalone: false,
+			Txs: []TxSpec{
+				{Ins: ins(fund(0)), Fee: 1000, Cls: "small"},
+				{Ins: ins(out(1, 0)), Fee: 1000},
+				{Ins: ins(out(2, 0)), Fee: 1000},
+				{Ins: ins(out(3, 0)), Fee: 1000},
+			}}),
+		// Lock times with the standardness checks on (all scripts P2SH): a time
+		// lock between the median time past and the wall clock, height locks
+		// that become final after one block, past and future locks.
+		defaults(Universe{Name: "locktime", NFund: 2, SlotParent: []int{0, 1}, MaxOrphans: 1, MaxBlockTxs: 1, Standalone: false, Standard: true,
+			Txs: []TxSpec{
+				{Ins: ins(fund(0)), Fee: 1000, VSize: 150, Lock: "tbetween"},
+				{Ins: ins(fund(1)), Fee: 1000, VSize: 150, Lock: "h1"},
+				{Ins: ins(out(2, 0)), Fee: 1000, VSize: 150, Lock: "tpast"},
+				{Ins: ins(fund(0)), Fee: 2000, VSize: 150, Lock: "tfuture"},
+				{Ins: ins(fund(0)), Fee: 1500, VSize: 150, Lock: "h0", Rbf: true},
+			}}),
 		// Mining shapes: a free transaction, witness transactions (fund coin 2 and
 		// output 1 of t1 are P2WSH), a low fee rate, a dependency chain.
 		defaults(Universe{Name: "mining", NFund: 3, SlotParent: []int{0}, MaxOrphans: 0, MaxBlockTxs: 1, Standalone: false,
@@ -308,13 +365,25 @@ func BuiltinUniverses() []*Universe {
 				{Ins: ins(fund(2)), Fee: 300},
 				{Ins: ins(fund(1)), Fee: 1000, Rbf: true},
 			}}),
-		// Signature operation limit: three transactions of cost 40000 each.
-		defaults(Universe{Name: "sigops", NFund: 3, SlotParent: []int{0}, MaxOrphans: 0, MaxBlockTxs: 1, Standalone: false,
+		// Signature operation limit: t1 (cost 40000) and t2 (39996) fill the block
+		// up to a P2PKH coinbase (4); t3 (40000) never fits with both; t4 spends a
+		// P2WSH coin whose witness script holds one OP_CHECKSIG (cost 1) at a low fee
+		// rate, so it is the last candidate.
+		defaults(Universe{Name: "sigops", NFund: 4, SlotParent: []int{0}, MaxOrphans: 0, MaxBlockTxs: 1, Standalone: false,
+			WitCoins: map[Outpoint]bool{fund(3): true}, WitSigOps: map[Outpoint]int{fund(3): 1},
 			Txs: []TxSpec{
-				{Ins: ins(fund(0)), NOut: 2, Fee: 9000, VSize: 700, SigOps: 500},
-				{Ins: ins(fund(1)), Fee: 8000, VSize: 700, SigOps: 500},
+				{Ins: ins(fund(0)), Fee: 9000, VSize: 700, SigOps: 500},
+				{Ins: ins(fund(1)), Fee: 8000, VSize: 700, SigOps: 499, SigOpsCS: 19},
 				{Ins: ins(fund(2)), Fee: 7000, VSize: 700, SigOps: 500},
-				{Ins: ins(out(1, 1)), Fee: 1000},
+				{Ins: ins(fund(3)), Fee: 150},
+			}}),
+		// Required difficulty above the minimum on a ReduceMinDifficulty network
+		// (retargeting every 20 blocks, base chain of 41 blocks): templates made and
+		// refreshed on either side of the twenty-minute boundary.
+		defaults(Universe{Name: "retarget", NFund: 1, SlotParent: []int{0}, MaxOrphans: 0, MaxBlockTxs: 1, Standalone: false, Retarget: true,
+			Txs: []TxSpec{
+				{Ins: ins(fund(0)), Fee: 1000},
+				{Ins: ins(out(1, 0)), Fee: 2000},
 			}}),
 	}
 }
@@ -379,6 +448,8 @@ func randomUniverse(rng *rand.Rand, name string, n int) *Universe {
 	u.MaxOrphans = []int{0, 1, 1, 2, 2, 2}[rng.Intn(6)]
 	u.RejectRepl = rng.Intn(6) == 0
 	u.Standalone = rng.Intn(2) == 0
+	u.Standard = rng.Intn(4) == 0 // standardness checks on: P2SH scripts, lock times
+	locks := []string{"none", "none", "h0", "h1", "h2", "tpast", "tbetween", "tfuture"}
 	if rng.Intn(3) == 0 {
 		u.MaxOrphanSize = 180
 	}
@@ -400,6 +471,10 @@ func randomUniverse(rng *rand.Rand, name string, n int) *Universe {
 			}
 		}
 		tx := TxSpec{NOut: 1 + rng.Intn(2), Fee: fees[rng.Intn(len(fees))], VSize: []int{150, 200, 250}[rng.Intn(3)], Rbf: rng.Intn(2) == 0}
+		if u.Standard {
+			tx.VSize += 100
+			tx.Lock = locks[rng.Intn(len(locks))]
+		}
 		k := 1
 		if rng.Intn(4) == 0 {
 			k = 2
@@ -418,7 +493,9 @@ func randomUniverse(rng *rand.Rand, name string, n int) *Universe {
 		if t > 1 {
 			switch rng.Intn(16) {
 			case 0:
-				tx.Cls = "badscript"
+				if !u.Standard {
+					tx.Cls = "badscript"
+				}
 			case 1:
 				tx.Cls = "negfee"
 			case 2:
